@@ -1081,7 +1081,7 @@ func (self *LockManager) ProcessLockData(command *protocol.LockCommand, lock *Lo
 		index, buf := 0, lockCommandData.Data[lockCommandData.GetValueOffset():]
 		for index+4 <= len(buf) {
 			dataLen := int(uint32(buf[index]) | uint32(buf[index+1])<<8 | uint32(buf[index+2])<<16 | uint32(buf[index+3])<<24)
-			if dataLen < 2 || index+4+dataLen > len(buf) {
+			if dataLen < 2 || index+4+dataLen > len(buf) || !protocol.IsLockCommandDataFrame(buf[index:index+4+dataLen]) {
 				break
 			}
 			command.Data = protocol.NewLockCommandDataFromOriginBytes(buf[index : index+4+dataLen])
